@@ -174,6 +174,15 @@ class World:
                 except Exception:  # noqa: BLE001 - a disturbance only; its own outcome is not judged here
                     pass
                 return Event(k, op, [])
+            if k == "inspect":
+                # the grammar is looked at (printed, summarised): no property forbids it, nothing may change
+                try:
+                    repr(self.grammar)
+                    str(self.grammar)
+                    self.grammar.get_grammar_properties_summary()
+                except Exception:  # noqa: BLE001
+                    pass
+                return Event(k, op, [])
             if k == "sibling":
                 # another grammar extracted in the same process from a subset of the same classes
                 # (one concrete production left out and/or another starting symbol)
@@ -314,6 +323,7 @@ def ops_strategy(max_ops=10, with_search=False, with_burn=False, with_map=True, 
         alts.append(st.builds(lambda n: ["burn", n], st.integers(1, 5)))
     if with_disturb:
         alts.append(st.just(["direct"]))
+        alts.append(st.just(["inspect"]))
         alts.append(st.builds(lambda k, d, s, f: ["sibling", k, d, s, f], st.integers(0, 12), st.booleans(), st.one_of(st.none(), st.integers(0, 12)), st.booleans()))
     if with_search:
         alts.append(
